@@ -90,6 +90,12 @@ func VerifC16_PrefixIterate() {
 	}
 	parent := vParent(n, 2)
 	p := vKey("p", 1, 2)
+	if zz.Choice("prefix_has_spare_capacity", 2) == 1 {
+		// a prefix slice with room behind it, as types.Subspace builds its own (append(name, '/'))
+		q := make([]byte, len(p), len(p)+8)
+		copy(q, p)
+		p = q
+	}
 	st := NewStore(parent, p)
 	var start, end []byte
 	if zz.Choice("hasStart", 2) == 1 {
